@@ -103,6 +103,7 @@ def cases(tier, seed):
     for w in range(16 if tier == 'quick' else 200):
         cs.append({'t': 'walk', 'w': w, 'seed': seed, 'n': 40})
     cs.append({'t': 'select'})
+    cs.append({'t': 'subunload'})
     return cs
 
 
@@ -232,6 +233,8 @@ def run_case(ctx, d):
                 ctx.sample({'exhaustive_block': [d['lo'], d['hi']], 'alphabet': 'L0..L7 load object i, U0..U7 unload object i; objects = (private, public) x 4 keys', 'length': L})
         elif d['t'] == 'walk':
             _walk(ctx, d, pgpy, U, sc)
+        elif d['t'] == 'subunload':
+            _subunload(ctx, d, pgpy, U)
         else:
             _select(ctx, d, pgpy, U, sc)
 
@@ -354,6 +357,53 @@ def _walk_steps(ctx, d, pgpy, U, sc, r, kr, loaded, scratch, trace, extra_objs, 
             continue
         # the model universe for "unloaded" identifiers is U (extra objects are copies of members of U)
         check_all(ctx, kr, loaded, {'walk': d['w'], 'step': step, 'trace': trace[-8:]}, sc)
+
+
+def _subunload(ctx, d, pgpy, U):
+    """a subkey unloaded on its own (selected through the keyring, then unloaded) while its primary key stays: it is no longer reported or
+    selectable for that half, the primary and the other half are untouched"""
+    for i in range(0, 8, 2):
+        priv, pub = U[i], U[i + 1]
+        for first in ('private', 'public'):
+            kr = pgpy.PGPKeyring()
+            kr.load(priv, pub)
+            objs = {'private': priv, 'public': pub}
+            gone = []
+            for half in ([first] + [h for h in ('private', 'public') if h != first]):
+                o = objs[half]
+                sk = list(o.subkeys.values())[0]
+                sfp = str(sk.fingerprint)
+                kr.unload(sk)
+                gone.append(half)
+                ctx.count('evaluations')
+                ctx.count('steps_checked')
+                ctx.count('subkey_only_unloads')
+                where = {'key': i // 2, 'unloaded_subkey_of': list(gone)}
+                for h in ('private', 'public'):
+                    e = {str(objs[h].fingerprint)} | ({str(list(objs[h].subkeys.values())[0].fingerprint)} if h not in gone else set())
+                    g = {str(f) for f in kr.fingerprints(keyhalf=h)}
+                    if e != g:
+                        ctx.fail('fingerprints-filter-%s' % h, {'where': where, 'missing': sorted(e - g), 'extra': sorted(g - e)})
+                e_all = {str(priv.fingerprint)} | ({sfp} if len(gone) < 2 else set())
+                g_all = {str(f) for f in kr.fingerprints()}
+                if e_all != g_all:
+                    ctx.fail('fingerprints-differ-from-loaded-keys', {'where': where, 'missing': sorted(e_all - g_all), 'extra': sorted(g_all - e_all)})
+                if len(kr) != 4 - len(gone):
+                    ctx.fail('len-differs-from-loaded-objects', {'where': where, 'len': len(kr), 'expected': 4 - len(gone)})
+                if (sfp in kr) != (len(gone) < 2):
+                    ctx.fail('identifier-of-unloaded-key-still-in-keyring' if len(gone) == 2 else 'identifier-of-loaded-key-not-in-keyring', {'where': where, 'identifier': sfp})
+                try:
+                    with kr.key(sfp) as got:
+                        if len(gone) == 2 or (got.is_public and 'public' in gone) or ((not got.is_public) and 'private' in gone):
+                            ctx.fail('identifier-of-unloaded-key-selects-a-key', {'where': where, 'identifier': sfp, 'got_public': got.is_public})
+                except KeyError:
+                    if len(gone) < 2:
+                        ctx.fail('identifier-of-loaded-key-selects-nothing', {'where': where, 'identifier': sfp})
+                # the primary key is untouched
+                with kr.key(str(priv.fingerprint)) as gp:
+                    if str(gp.fingerprint) != str(priv.fingerprint):
+                        ctx.fail('identifier-selects-key-not-carrying-it', {'where': where, 'identifier': str(priv.fingerprint)})
+    ctx.nontrivial(d)
 
 
 def _select(ctx, d, pgpy, U, sc):
